@@ -793,9 +793,10 @@ def poison_heap(shape, dtype, fill):
     del junk
 
 
-def heap_dependence(op, grid, info, seed):
+def heap_dependence(op, grid, info, seed, poison=None):
     """the literal clause 'depends only on its arguments and the current contents of the fields': the same operator on
     the same data after two different allocation histories.  Returns None or the two results."""
+    poison_heap = poison or globals()["poison_heap"]
     shape = (grid.dim,) * info.rank_in + grid.shape
     shape_full = (grid.dim,) * info.rank_in + grid._shape_full
     d = rnd_data(seed, shape)
@@ -1937,10 +1938,83 @@ def fixed_heap_jit():
             {"kind": "heap", "jit": True, "n": 3, "init": "1", "events": [["rate_jit"], ["relink", 1], ["write", "7"], ["rate_jit"], ["rate"]]}]
 
 
+def real_heapdep_jit(case):
+    """the heap-dependence monitor on the COMPILED operator (the pairs leg runs under NUMBA_DISABLE_JIT=1, where the
+    Python version of the wrapper allocates): freed blocks are left behind by a compiled function, because compiled
+    code allocates through numba's runtime"""
+    import numba as nb
+    quiet()
+    try:
+        grid, backend, info, kw = build_req(case["req"])
+        op = backend.make_operator(grid, info, **kw)
+        op(rnd_data(1, (grid.dim,) * info.rank_in + grid.shape))  # compile first (compilation allocates as well)
+    except Exception as e:  # malformed stream: the request is rejected
+        return {"error": exc_class(e)}
+
+    @nb.njit
+    def poison(shape, fill):
+        s = 0.0
+        for _ in range(6):
+            a = np.full(shape, fill)
+            s += a.flat[0]
+        return s
+    hd = heap_dependence(op, grid, info, case["seed"], poison=lambda shape, dtype, fill: poison(shape, fill))
+    out = {"undefined_cells": 0}
+    mb = True
+    if has_normal(case["req"]["bc"]):
+        mb = defined_mask(grid, info, kw["bcs"], {k: dec(v) for k, v in case["req"]["kwargs"]}, backend)
+        out["undefined_cells"] = int(mb.size - np.count_nonzero(mb))
+    if hd is not None:
+        inside = bool(mb is not True and not np.any(hd["cells"] & np.broadcast_to(mb, hd["cells"].shape)))
+        out["heap_dep"] = {"first": lst(hd["first"]), "second": lst(hd["second"]),
+                           "cells_differing": np.argwhere(hd["cells"]).tolist()[:12], "n_cells_differing": int(hd["cells"].sum()),
+                           "only_in_cells_no_condition_determines": inside}
+    return out
+
+
+def fixed_heapdep_jit():
+    g2 = {"cls": "UnitGrid", "shape": [4, 3], "bounds": [[0.0, 4.0], [0.0, 3.0]], "periodic": [False, False]}
+    nv = {"type": "normal_value", "value": ["f", 1.0]}
+    return [{"kind": "heapdep", "seed": 7, "req": {
+        "grid": g2, "op": "vector_laplace", "rank": 1, "dtype": ["none"], "kwargs": [], "korder": 0,
+        "bc": {"x-": nv, "x+": nv, "y-": {"type": "value", "value": ["f", 0.5]}, "y+": {"type": "derivative", "value": ["f", 0.0]}}}}]
+
+
+def gen_heapdep_jit(rng, hist):
+    """a random request on a 2d Cartesian grid with an operator of rank >= 1 (compiled: a few seconds each)"""
+    for _ in range(200):
+        r = gen_req(rng)
+        if r["rank"] >= 1 and len(r["grid"]["shape"]) == 2 and r["grid"]["cls"] in ("UnitGrid", "CartesianGrid"):
+            hist("heapdep-jit", r["op"] + ("/normal" if has_normal(r["bc"]) else ""))
+            return {"kind": "heapdep", "seed": rng.randrange(1 << 30), "req": r}
+    return fixed_heapdep_jit()[0]
+
+
+def judge_heapdep_jit(ctx, cases, results):
+    for c, r in zip(cases, results):
+        ctx.count(c, nontrivial=True, leg="pairs:req:jit")
+        if isinstance(r, str):
+            ctx.disagree("worker-exception", c, "no exception", r[-600:], "unexpected exception in the compiled heap-dependence monitor")
+            continue
+        if "error" in r:
+            ctx.hist("malformed", "heapdep-jit:" + r["error"][:40])
+            continue
+        ctx.monitor_evals += 1
+        hd = r.get("heap_dep")
+        if hd:
+            key = KEY_UNINIT if hd["only_in_cells_no_condition_determines"] and has_normal(c["req"]["bc"]) else \
+                dict(call_site="NumbaBackend.make_operator", symptom="result depends on the contents of freed memory")
+            ctx.monitor_fail("pairs:req:jit", c, dict(hd, symptom="heap_dependence"), {"same_result_after_any_allocation_history": True},
+                             f"req (compiled): {key['symptom']}", key=key)
+
+
 def jit_worker(item):
-    """one process pool for everything that needs the JIT: compiled histories and compiled heap histories"""
+    """one process pool for everything that needs the JIT: compiled histories, compiled heap histories and the
+    heap-dependence monitor on compiled operators"""
     if item.get("kind") == "heap":
         return real_heap(item)
+    if item.get("kind") == "heapdep":
+        return real_heapdep_jit(item)
     return hist_worker(item)
 
 
@@ -2012,13 +2086,15 @@ def run_histories(ctx):
     ctx.extra["t_hist_S"] = [round(time.time() - t0, 1), round(_cpu() - c0, 1)]
     t0, c0 = time.time(), _cpu()
     hj = [gen_history(rng, ctx.hist, jit=True) for _ in range(n_j)] + fixed_histories()[:2] + fixed_histories_jit()
-    heapj = fixed_heap_jit() + [gen_heap_jit_case(rng, ctx.hist) for _ in range(ctx.budget(3, 22))]
-    # interleave so that every process gets its share of both kinds
-    items = [x for pair in itertools.zip_longest(hj, heapj) for x in pair if x is not None]
+    heapj = fixed_heap_jit() + [gen_heap_jit_case(rng, ctx.hist) for _ in range(ctx.budget(2, 20))]
+    depj = fixed_heapdep_jit() + [gen_heapdep_jit(rng, ctx.hist) for _ in range(ctx.budget(0, 10))]
+    # interleave so that every process gets its share of all kinds (quick: 16 items for 16 processes)
+    items = [x for tpl in itertools.zip_longest(hj, heapj, depj) for x in tpl if x is not None]
     res_items = run_many("harness.c04", "jit_worker", items, env={"NUMBA_DISABLE_JIT": "0"}, procs=16)
     by_id = {id(x): r for x, r in zip(items, res_items)}
     resj = [by_id[id(h)] for h in hj]
     judge_heap_jit(ctx, heapj, [by_id[id(c)] for c in heapj])
+    judge_heapdep_jit(ctx, depj, [by_id[id(c)] for c in depj])
     ctx.extra["t_hist_J"] = [round(time.time() - t0, 1), round(_cpu() - c0, 1)]
     for mode, hl, rl in (("S", hs, res), ("J", hj, resj)):
         for h, r in zip(hl, rl):
@@ -2372,6 +2448,13 @@ def replay(ctx, rep):
         st, val = b.run()[0]
         print("mode:", "compiled" if jit else "NUMBA_DISABLE_JIT=1", "read:", r["read"], "current content:", val.get("ref") if st == "ok" else val)
         return st == "ok" and list(val["ref"]) == list(r["read"])
+    if case.get("kind") == "heapdep":
+        res = _iso("real_heapdep_jit", case, True)
+        if isinstance(res, str):
+            print("worker exception:", res[-600:])
+            return False
+        print(json.dumps(res, default=str)[:2000])
+        return not res.get("heap_dep")
     if case.get("kind") in ("req", "interp", "nobc"):
         res = _iso("pair_worker", case, False)
         if isinstance(res, str):
